@@ -76,36 +76,16 @@ Qed.
 
 Definition wf (f : rfile) : Prop := rf_pos f <= length (rf_data f).
 
-Lemma overwrite_length data pos d : pos <= length data ->
-  length (overwrite data pos d) = Nat.max (length data) (pos + length d).
-Proof.
-  intros H. unfold overwrite. rewrite !app_length, firstn_length, skipn_length. lia.
-Qed.
-
 Lemma overwrite_end data d : overwrite data (length data) d = data ++ d.
 Proof.
-  unfold overwrite. rewrite firstn_all, skipn_all2 by lia. now rewrite app_nil_r.
+  unfold overwrite. destruct d as [|x d]; [now rewrite app_nil_r|].
+  rewrite firstn_all, skipn_all2 by lia. rewrite Nat.sub_diag. cbn [repeat app]. now rewrite app_nil_r.
 Qed.
 
-(* every call keeps the position inside the data, provided it is one the
-   property speaks about *)
-Lemma ref_step_wf k f op : wf f -> ref_pre k f op = true -> wf (fst (ref_step f op)).
+Lemma rest_nil_ge f : rest f = [] -> length (rf_data f) <= rf_pos f.
 Proof.
-  unfold wf. intros W P.
-  assert (R := rest_length f W).
-  destruct op as [d| |[n|]|[n|]|hint| | | |off wh| | |]; simpl; try assumption.
-  - rewrite overwrite_length by assumption. lia.
-  - rewrite firstn_length. lia.
-  - lia.
-  - rewrite firstn_length. pose proof (take_line_length (rest f)). lia.
-  - pose proof (take_line_length (rest f)). lia.
-  - destruct hint; [|discriminate]. rewrite take_hint_0, total_len_lines; lia.
-  - destruct (take_line (rest f)) as [|x l] eqn:E; simpl; [assumption|].
-    pose proof (take_line_length (rest f)) as L. rewrite E in L. simpl in L. lia.
-  - rewrite total_len_lines. lia.
-  - rewrite total_len_lines. lia.
-  - destruct (seek_target f off wh <? 0)%Z eqn:E; simpl; [assumption|].
-    apply andb_true_iff in P as [P _]. apply andb_true_iff in P as [P P2].
-    apply Z.leb_le in P2. lia.
-  Unshelve. all: exact 0.
+  unfold rest. intro E. apply (f_equal (@length N)) in E. rewrite skipn_length in E. cbn in E. lia.
 Qed.
+
+Lemma rest_length_le f : length (rest f) <= length (rf_data f).
+Proof. unfold rest. rewrite skipn_length. lia. Qed.
